@@ -37,7 +37,26 @@ const c16ScriptResp1 = `document.getElementById('SAMLSubmitButton').style.visibi
 const c16ScriptResp2 = `document.getElementById('SAMLResponseForm').submit();`
 
 func c16Exec(c c16Case) (keys []string, detail, class string) {
-	sp := world.SP()
+	keys, detail, class = c16ExecOn(world.SP(), c)
+	if len(keys) == 0 {
+		// a second page from the SAME instance with another relay state must carry that one
+		sp := world.SP()
+		c16ExecOn(sp, c)
+		c2 := c
+		c2.Relay = (c.Relay + 7) % len(c16Relay)
+		k2, d2, _ := c16ExecOn(sp, c2)
+		for _, k := range k2 {
+			keys = append(keys, strings.Replace(k, "C16/", "C16/second-call-on-same-instance/", 1))
+		}
+		if len(k2) > 0 {
+			detail += " | second call on the same instance: " + d2
+			class = "DIFFERS"
+		}
+	}
+	return keys, detail, class
+}
+
+func c16ExecOn(sp *saml2.SAMLServiceProvider, c c16Case) (keys []string, detail, class string) {
 	sp.IdentityProviderSSOURL = c16Endpoints[c.Endpoint]
 	sp.IdentityProviderSLOURL = strings.Replace(c16Endpoints[c.Endpoint], "/sso", "/slo", 1)
 	sp.SignAuthnRequests = c.Sign
